@@ -164,6 +164,17 @@ CHECKS = {
         technique="TLA+ spec Optimizer.tla (TLC exhaustive, adversarial environment) + OptimizerJudge.tla trace validation of "
                   "recorded optimize_clamp steps",
         ref="DESIGN.md section 4 C13"),
+    "C18": dict(
+        text="Find.tla computes in integer arithmetic the exact vertex sets of all sphere queries (integer centres, radii "
+             "off every lattice distance) and plane queries (lattice points x integer normals) on a lattice mesh, and - from "
+             "an observer/ceiling frame alone - the canonical numbering of a hexahedron, which TLC checks to be a rotation for "
+             "all 24 frames; the lattice mesh is built under a random similarity and GeometricFinder compared with the exact "
+             "sets (plus 0.3/3 x TOL twins with long/short normals), RoundSolidFinder's core/rim sets are compared with "
+             "geometric predicates, and a randomly distorted convex block is re-oriented from the 48 numberings x 24 frames.",
+        note="Round-shape finder sets are decided by harness-side geometric predicates (on the end plane, at the rim radius).",
+        technique="TLA+ spec Find.tla/Hex.tla/Lattice.tla: TLC-computed exact query results and canonical numberings; "
+                  "replayed into the implementation under similarity conjugation",
+        ref="DESIGN.md section 4 C18"),
 }
 
 def main():
